@@ -352,7 +352,7 @@ func (g *c11gen) proc(prefix, ctx, body string, meta map[string]string) {
 	g.cases = append(g.cases, Case{
 		ID:     fmt.Sprintf("%s%d", prefix, g.n),
 		Op:     "proc",
-		Fields: []string{ctx, hx(body), procEnv(ctx), "T"},
+		Fields: []string{ctx, hx(body), procEnv(ctx), "T", cellOf(meta)},
 		Meta:   meta,
 	})
 	g.st.Counts["proc_"+ctx]++
@@ -367,6 +367,13 @@ func (g *c11gen) parse(prefix, kind, tree, expr string) {
 		Meta:   map[string]string{},
 	})
 	g.st.Counts["parse_"+kind]++
+}
+
+func cellOf(meta map[string]string) string {
+	if c, ok := meta["cell"]; ok && c != "" {
+		return c
+	}
+	return "-"
 }
 
 type bval struct {
